@@ -32,6 +32,7 @@ func c08Tree() *c08tree {
 		if err != nil {
 			panic(err)
 		}
+		atExit(func() { os.RemoveAll(base) })
 		t := &c08tree{root: filepath.Join(base, "root"), files: map[string][]byte{}}
 		os.MkdirAll(filepath.Join(t.root, "dir"), 0o755)
 		os.MkdirAll(filepath.Join(t.root, "noindex"), 0o755)
